@@ -2648,54 +2648,347 @@ Proof.
   apply andb_true_iff in H as [_ H]. apply negb_true_iff in H. cbn. exact H.
 Qed.
 
-Lemma lex_loop_flat : forall l fuel,
-  lexable l = true -> (List.length (flat l) <= fuel)%nat -> lex_loop fuel (flat l) = Ok (List.map fst l).
+(* concrete syntax as a list of items: tokens and single layout bytes *)
+Inductive item := IT (t : token) | IW (c : N).
+
+Fixpoint flat_i (l : list item) : bytes :=
+  match l with
+  | [] => []
+  | IT t :: l' => src t ++ flat_i l'
+  | IW c :: l' => c :: flat_i l'
+  end.
+Fixpoint toks_i (l : list item) : list token :=
+  match l with
+  | [] => []
+  | IT t :: l' => t :: toks_i l'
+  | IW _ :: l' => toks_i l'
+  end.
+Fixpoint lexable_i (l : list item) : bool :=
+  match l with
+  | [] => true
+  | IT t :: l' => tok_ok t (follow (flat_i l')) && forallb in_domain (src t) && lexable_i l'
+  | IW c :: l' => ((c =? 32) || (c =? 10)) && hd_nonws (flat_i l') && lexable_i l'
+  end.
+
+Definition first_byte (x : item) : option N :=
+  match x with
+  | IW c => Some c
+  | IT t => match src t with c :: _ => Some c | [] => None end
+  end.
+Definition nonws_nx (nx : option N) : bool :=
+  match nx with None => true | Some d => negb (is_blank d || is_eol d) end.
+
+(* a lexable token starts with a non-blank byte *)
+Lemma tok_ok_first t nx : tok_ok t nx = true -> nonws_nx (first_byte (IT t)) = true.
 Proof.
-  induction l as [|[t ws] l IH]; intros fuel Hl Hf.
-  - destruct fuel; reflexivity.
-  - cbn [lexable] in Hl.
-    apply andb_true_iff in Hl as [Hl Hrest]. apply andb_true_iff in Hl as [Hl Hdom].
-    apply andb_true_iff in Hl as [Hl Hnw]. apply andb_true_iff in Hl as [Hws Htok].
-    cbn [flat List.map fst].
-    pose proof (next_token_ok t (ws ++ flat l) Htok) as Hnt.
-    pose proof (tok_ok_src_nonempty t _ Htok) as Hne.
-    cbn [flat] in Hf. rewrite app_length in Hf.
-    destruct (src t ++ ws ++ flat l) as [|c s] eqn:E.
-    { destruct (src t); [congruence|discriminate]. }
-    destruct fuel as [|f]; [destruct (src t); [congruence|cbn in Hf; lia]|].
-    cbn [lex_loop]. rewrite Hnt, (tok_ok_not_elided t _ Htok), (tok_ok_no_backslash t _ Htok).
-    assert (Hlen : (List.length (ws ++ flat l) <= f)%nat).
-    { destruct (src t); [congruence|]. cbn [List.length] in Hf. lia. }
-    assert (Hskip : lex_loop f (ws ++ flat l) = Ok (List.map fst l)).
-    { unfold ws_ok in Hws. apply orb_true_iff in Hws as [Hws|Hws]; [apply orb_true_iff in Hws as [Hws|Hws]|].
-      - destruct ws; [|discriminate]. cbn [app] in *. apply IH; assumption.
-      - apply bytes_eqb_true in Hws. subst ws. cbn [app] in *. cbn [List.length] in Hlen.
-        destruct f as [|f']; [lia|]. cbn [lex_loop]. rewrite (nt_space _ Hnw). cbn [elided tk].
-        apply IH; [assumption|lia].
-      - apply bytes_eqb_true in Hws. subst ws. cbn [app] in *. cbn [List.length] in Hlen.
-        destruct f as [|f']; [lia|]. cbn [lex_loop]. rewrite (nt_newline _ Hnw). cbn [elided tk].
-        apply IH; [assumption|lia]. }
-    rewrite Hskip. reflexivity.
+  destruct t as [k x]. unfold tok_ok, first_byte, src. cbn [tk tx].
+  destruct k; cbn [kind_eqb kind_code N.eqb Pos.eqb]; cbv iota; intros H; try discriminate.
+  - apply mem_cases in H. cbn in H. destruct H as [<-|[<-|[<-|[]]]]; reflexivity.
+  - apply mem_cases in H. cbn in H. destruct H as [<-|[<-|[<-|[<-|[<-|[]]]]]]; reflexivity.
+  - destruct (strip lit_hex x) as [h|] eqn:E; [|discriminate]. apply strip_inv in E. subst x. reflexivity.
+  - apply bytes_eqb_true in H. subst x. reflexivity.
+  - apply bytes_eqb_true in H. subst x. reflexivity.
+  - apply bytes_eqb_true in H. subst x. reflexivity.
+  - apply bytes_eqb_true in H. subst x. reflexivity.
+  - apply orb_true_iff in H as [H|H]; [apply orb_true_iff in H as [H|H]|].
+    + apply mem_cases in H. cbn in H. destruct H as [<-|[<-|[<-|[<-|[<-|[<-|[]]]]]]]; reflexivity.
+    + apply andb_true_iff in H as [H _]. apply bytes_eqb_true in H. subst x. reflexivity.
+    + apply andb_true_iff in H as [H _]. apply bytes_eqb_true in H. subst x. reflexivity.
+  - destruct x as [|a [|b body]]; try discriminate.
+    repeat match goal with Hx : (_ && _) = true |- _ => apply andb_true_iff in Hx; destruct Hx end.
+    match goal with Ha : (a =? 47) = true |- _ => apply N.eqb_eq in Ha; subst a end. reflexivity.
+  - reflexivity.
+  - destruct x as [|d w]; [discriminate|].
+    repeat match goal with Hx : (_ && _) = true |- _ => apply andb_true_iff in Hx; destruct Hx end.
+    match goal with Ha : (d =? 36) = true |- _ => apply N.eqb_eq in Ha; subst d end. reflexivity.
+  - destruct x as [|o w]; [discriminate|]. apply andb_true_iff in H as [Ho _].
+    apply N.eqb_eq in Ho. subst o. reflexivity.
+  - do 20 (destruct x as [|? x]; [discriminate|]). cbn [dt_shape] in H. destruct x; [|discriminate].
+    repeat match goal with Hx : (_ && _) = true |- _ => apply andb_true_iff in Hx; destruct Hx end.
+    match goal with Hd : is_digit ?c = true |- nonws_nx (Some ?c) = true =>
+      apply is_digit_iff in Hd; cbn [nonws_nx]; apply negb_true_iff, orb_false_iff; split;
+      [apply is_blank_false|apply is_eol_false]; lia end.
+  - destruct x as [|c w]; [discriminate|].
+    repeat match goal with Hx : (_ && _) = true |- _ => apply andb_true_iff in Hx; destruct Hx end.
+    match goal with Hx : forallb is_digit (c :: w) = true |- _ =>
+      cbn [forallb] in Hx; apply andb_true_iff in Hx; destruct Hx as [Hd _] end.
+    apply is_digit_iff in Hd. cbn [nonws_nx]. apply negb_true_iff, orb_false_iff; split;
+      [apply is_blank_false|apply is_eol_false]; lia.
+  - apply mem_cases in H. cbn in H. destruct H as [<-|[<-|[]]]; reflexivity.
+  - destruct x as [|c w]; [discriminate|].
+    repeat match goal with Hx : (_ && _) = true |- _ => apply andb_true_iff in Hx; destruct Hx end.
+    match goal with Hl : is_lower c = true |- _ => apply is_lower_iff in Hl end.
+    cbn [nonws_nx]. apply negb_true_iff, orb_false_iff; split; [apply is_blank_false|apply is_eol_false]; lia.
+  - apply orb_true_iff in H as [H|H].
+    + apply mem_cases in H. cbn in H. destruct H as [<-|[<-|[<-|[<-|[<-|[<-|[<-|[]]]]]]]]; reflexivity.
+    + apply andb_true_iff in H as [H _]. apply bytes_eqb_true in H. subst x. reflexivity.
 Qed.
 
-Lemma lexable_domain l : lexable l = true -> forallb in_domain (flat l) = true.
+(* ================================================================== *)
+(* arbitrary layout                                                     *)
+(* ================================================================== *)
+(* a layout byte: space, tab, \n, \r — the bytes of the elided Whitespace / EOL tokens *)
+Definition is_layout (c : N) : bool := is_blank c || is_eol c.
+
+Lemma is_layout_cases c : is_layout c = true -> c = 32 \/ c = 9 \/ c = 10 \/ c = 13.
 Proof.
-  induction l as [|[t ws] l IH]; intros Hl; [reflexivity|].
-  cbn [lexable] in Hl.
+  unfold is_layout, is_blank, is_eol. intros H.
+  repeat (apply orb_true_iff in H; destruct H as [H|H]); apply N.eqb_eq in H; auto.
+Qed.
+Lemma is_layout_domain c : is_layout c = true -> in_domain c = true.
+Proof. intros H. destruct (is_layout_cases c H) as [->|[->|[->| ->]]]; reflexivity. Qed.
+Lemma layout_domain ws : forallb is_layout ws = true -> forallb in_domain ws = true.
+Proof.
+  induction ws as [|c ws IH]; [reflexivity|]. cbn [forallb]. intros H. apply andb_true_iff in H as [Hc Hws].
+  rewrite (is_layout_domain c Hc), (IH Hws). reflexivity.
+Qed.
+
+(* [span] over an append whose second part does not continue the run *)
+Lemma span_app p : forall ws s, nx_not p (follow s) = true ->
+  span p (ws ++ s) = (fst (span p ws), snd (span p ws) ++ s).
+Proof.
+  intros ws s Hs. induction ws as [|a ws IH].
+  - cbn [app span fst snd]. destruct s as [|c s']; [reflexivity|]. cbn in Hs. apply negb_true_iff in Hs.
+    cbn [span]. rewrite Hs. reflexivity.
+  - cbn [app span]. destruct (p a); [|reflexivity]. rewrite IH. destruct (span p ws) as [m r]. reflexivity.
+Qed.
+Lemma span_snd_len p : forall ws, (List.length (snd (span p ws)) <= List.length ws)%nat.
+Proof.
+  induction ws as [|a ws IH]; [apply le_n|]. cbn [span]. destruct (p a); [|apply le_n].
+  destruct (span p ws) as [m r]. cbn [snd List.length] in *. lia.
+Qed.
+Lemma span_snd_forallb q p : forall ws, forallb q ws = true -> forallb q (snd (span p ws)) = true.
+Proof.
+  induction ws as [|a ws IH]; [reflexivity|]. intros H. cbn [span]. destruct (p a); [|exact H].
+  cbn [forallb] in H. apply andb_true_iff in H as [_ H]. specialize (IH H).
+  destruct (span p ws) as [m r]. exact IH.
+Qed.
+
+(* a run of blanks is one Whitespace token, a run of \n \r one EOL token *)
+Lemma nt_blank c s : is_blank c = true ->
+  next_token (c :: s) = Some (Tok KWhitespace (c :: fst (span is_blank s)), snd (span is_blank s)).
+Proof.
+  intros H. unfold is_blank in H. apply orb_true_iff in H as [H|H]; apply N.eqb_eq in H; subst c.
+  - unfold next_token. at_rule 16%nat.
+    + earlier_none.
+    + unfold rec_whitespace, span1. cbn [span]. change (is_blank 32) with true. cbv iota.
+      destruct (span is_blank s) as [m r]. reflexivity.
+  - unfold next_token. at_rule 16%nat.
+    + earlier_none.
+    + unfold rec_whitespace, span1. cbn [span]. change (is_blank 9) with true. cbv iota.
+      destruct (span is_blank s) as [m r]. reflexivity.
+Qed.
+Lemma nt_eol_run c s : is_eol c = true ->
+  next_token (c :: s) = Some (Tok KEOL (c :: fst (span is_eol s)), snd (span is_eol s)).
+Proof.
+  intros H. unfold is_eol in H. apply orb_true_iff in H as [H|H]; apply N.eqb_eq in H; subst c.
+  - unfold next_token. at_rule 17%nat.
+    + earlier_none.
+    + unfold rec_eol, span1. cbn [span]. change (is_eol 10) with true. cbv iota.
+      destruct (span is_eol s) as [m r]. reflexivity.
+  - unfold next_token. at_rule 17%nat.
+    + earlier_none.
+    + unfold rec_eol, span1. cbn [span]. change (is_eol 13) with true. cbv iota.
+      destruct (span is_eol s) as [m r]. reflexivity.
+Qed.
+
+Lemma hd_nonws_split s : hd_nonws s = true ->
+  nx_not is_blank (follow s) = true /\ nx_not is_eol (follow s) = true.
+Proof.
+  destruct s as [|c s']; [split; reflexivity|]. cbn [hd_nonws follow nx_not]. intros H.
+  apply negb_true_iff, orb_false_iff in H as [H1 H2]. rewrite H1, H2. split; reflexivity.
+Qed.
+
+(* the lexer skips any run of layout bytes in front of a text that does not start with one *)
+Lemma lex_loop_layout : forall n ws s X,
+  (List.length ws <= n)%nat -> forallb is_layout ws = true -> hd_nonws s = true ->
+  (forall f, (List.length s <= f)%nat -> lex_loop f s = X) ->
+  forall fuel, (List.length (ws ++ s) <= fuel)%nat -> lex_loop fuel (ws ++ s) = X.
+Proof.
+  induction n as [|n IH]; intros ws s X Hn Hws Hs HX fuel Hf.
+  - destruct ws as [|c ws]; [|cbn in Hn; lia]. apply HX. exact Hf.
+  - destruct ws as [|c ws]; [apply HX; exact Hf|].
+    cbn [forallb] in Hws. apply andb_true_iff in Hws as [Hc Hws].
+    cbn [List.length] in Hn. cbn [app List.length] in Hf. destruct fuel as [|f]; [lia|].
+    destruct (hd_nonws_split s Hs) as [Hsb Hse].
+    cbn [app lex_loop]. unfold is_layout in Hc. apply orb_true_iff in Hc as [Hc|Hc].
+    + rewrite (nt_blank c (ws ++ s) Hc). cbn [elided tk].
+      rewrite (span_app is_blank ws s Hsb). cbn [snd].
+      pose proof (span_snd_len is_blank ws) as Hlen.
+      apply IH; [lia|apply span_snd_forallb; exact Hws|exact Hs|exact HX|].
+      rewrite app_length in *. lia.
+    + rewrite (nt_eol_run c (ws ++ s) Hc). cbn [elided tk].
+      rewrite (span_app is_eol ws s Hse). cbn [snd].
+      pose proof (span_snd_len is_eol ws) as Hlen.
+      apply IH; [lia|apply span_snd_forallb; exact Hws|exact Hs|exact HX|].
+      rewrite app_length in *. lia.
+Qed.
+
+Lemma tok_ok_hd_nonws t nx r : tok_ok t nx = true -> hd_nonws (src t ++ r) = true.
+Proof.
+  intros H. pose proof (tok_ok_first t nx H) as Hf. pose proof (tok_ok_src_nonempty t nx H) as Hne.
+  unfold first_byte in Hf. destruct (src t) as [|c x]; [congruence|]. exact Hf.
+Qed.
+
+(* items with ANY layout byte, any number of them anywhere: the only side conditions are
+   the per-token ones ([tok_ok] against the byte that follows the token in the text) *)
+Fixpoint lexable_i_any (l : list item) : bool :=
+  match l with
+  | [] => true
+  | IT t :: l' => tok_ok t (follow (flat_i l')) && forallb in_domain (src t) && lexable_i_any l'
+  | IW c :: l' => is_layout c && lexable_i_any l'
+  end.
+
+Lemma lex_loop_nil f : lex_loop f [] = Ok [].
+Proof. destruct f; reflexivity. Qed.
+
+Lemma lex_loop_items_any : forall l ws fuel,
+  lexable_i_any l = true -> forallb is_layout ws = true ->
+  (List.length (ws ++ flat_i l) <= fuel)%nat -> lex_loop fuel (ws ++ flat_i l) = Ok (toks_i l).
+Proof.
+  induction l as [|[t|c] l IH]; intros ws fuel Hl Hws Hf.
+  - cbn [flat_i toks_i] in *.
+    apply (lex_loop_layout (List.length ws) ws [] (Ok [])); [apply le_n|exact Hws|reflexivity| |exact Hf].
+    intros f _. apply lex_loop_nil.
+  - cbn [lexable_i_any] in Hl. apply andb_true_iff in Hl as [Hl Hrest]. apply andb_true_iff in Hl as [Htok Hdom].
+    cbn [flat_i toks_i] in *.
+    apply (lex_loop_layout (List.length ws) ws (src t ++ flat_i l) (Ok (t :: toks_i l)));
+      [apply le_n|exact Hws|apply (tok_ok_hd_nonws t _ _ Htok)| |exact Hf].
+    intros f Hlen.
+    pose proof (next_token_ok t (flat_i l) Htok) as Hnt.
+    pose proof (tok_ok_src_nonempty t _ Htok) as Hne.
+    rewrite app_length in Hlen.
+    destruct (src t ++ flat_i l) as [|c s] eqn:E.
+    { destruct (src t); [congruence|discriminate]. }
+    destruct f as [|f]; [destruct (src t); [congruence|cbn in Hlen; lia]|].
+    cbn [lex_loop]. rewrite Hnt, (tok_ok_not_elided t _ Htok), (tok_ok_no_backslash t _ Htok).
+    pose proof (IH [] f Hrest eq_refl) as Hrec. cbn [app] in Hrec.
+    rewrite Hrec; [reflexivity|].
+    destruct (src t); [congruence|]. cbn [List.length] in Hlen. lia.
+  - cbn [lexable_i_any] in Hl. apply andb_true_iff in Hl as [Hc Hrest].
+    cbn [flat_i toks_i] in *.
+    replace (ws ++ c :: flat_i l) with ((ws ++ [c]) ++ flat_i l) in * by (rewrite <- app_assoc; reflexivity).
+    apply IH; [exact Hrest| |exact Hf].
+    rewrite forallb_app, Hws. cbn [forallb]. rewrite Hc. reflexivity.
+Qed.
+
+Lemma lexable_i_any_domain l : lexable_i_any l = true -> forallb in_domain (flat_i l) = true.
+Proof.
+  induction l as [|[t|c] l IH]; intros Hl; [reflexivity| |]; cbn [lexable_i_any] in Hl.
+  - apply andb_true_iff in Hl as [Hl Hrest]. apply andb_true_iff in Hl as [Htok Hdom].
+    cbn [flat_i]. rewrite forallb_app, Hdom, (IH Hrest). reflexivity.
+  - apply andb_true_iff in Hl as [Hc Hrest].
+    cbn [flat_i forallb]. rewrite (IH Hrest), (is_layout_domain c Hc). reflexivity.
+Qed.
+
+(* C14/C15, lexer level, arbitrary layout *)
+Theorem lex_items_any : forall l, lexable_i_any l = true -> lex (flat_i l) = Ok (toks_i l).
+Proof.
+  intros l Hl. unfold lex. rewrite (lexable_i_any_domain l Hl).
+  apply (lex_loop_items_any l [] _ Hl eq_refl). apply le_n.
+Qed.
+
+(* the {nothing, one space, one newline} layouts are a special case *)
+Lemma lexable_i_any_of l : lexable_i l = true -> lexable_i_any l = true.
+Proof.
+  induction l as [|[t|c] l IH]; intros Hl; [reflexivity| |]; cbn [lexable_i lexable_i_any] in *.
+  - apply andb_true_iff in Hl as [Hl Hrest]. rewrite Hl, (IH Hrest). reflexivity.
+  - apply andb_true_iff in Hl as [Hl Hrest]. apply andb_true_iff in Hl as [Hc _]. rewrite (IH Hrest), andb_true_r.
+    apply orb_true_iff in Hc as [Hc|Hc]; apply N.eqb_eq in Hc; subst c; reflexivity.
+Qed.
+
+(* ---- the same with gaps: a leading gap and one gap after each token ---- *)
+Fixpoint lexable_any (l : list (token * bytes)) : bool :=
+  match l with
+  | [] => true
+  | (t, ws) :: l' =>
+      forallb is_layout ws && tok_ok t (follow (ws ++ flat l'))
+      && forallb in_domain (src t) && lexable_any l'
+  end.
+Definition render_any (pre : bytes) (l : list (token * bytes)) : bytes := pre ++ flat l.
+
+Fixpoint items_of (l : list (token * bytes)) : list item :=
+  match l with [] => [] | (t, ws) :: l' => IT t :: List.map IW ws ++ items_of l' end.
+
+Lemma flat_i_ws ws r : flat_i (List.map IW ws ++ r) = ws ++ flat_i r.
+Proof. induction ws as [|c ws IH]; [reflexivity|]. cbn [List.map app flat_i]. rewrite IH. reflexivity. Qed.
+Lemma toks_i_ws ws r : toks_i (List.map IW ws ++ r) = toks_i r.
+Proof. induction ws as [|c ws IH]; [reflexivity|]. cbn [List.map app toks_i]. exact IH. Qed.
+Lemma lexable_i_any_ws ws r : lexable_i_any (List.map IW ws ++ r) = forallb is_layout ws && lexable_i_any r.
+Proof.
+  induction ws as [|c ws IH]; [reflexivity|]. cbn [List.map app lexable_i_any forallb]. rewrite IH, andb_assoc. reflexivity.
+Qed.
+Lemma flat_items_of l : flat_i (items_of l) = flat l.
+Proof. induction l as [|[t ws] l IH]; [reflexivity|]. cbn [items_of flat_i flat]. rewrite flat_i_ws, IH. reflexivity. Qed.
+Lemma toks_items_of l : toks_i (items_of l) = List.map fst l.
+Proof. induction l as [|[t ws] l IH]; [reflexivity|]. cbn [items_of toks_i List.map fst]. rewrite toks_i_ws, IH. reflexivity. Qed.
+Lemma lexable_items_of l : lexable_any l = true -> lexable_i_any (items_of l) = true.
+Proof.
+  induction l as [|[t ws] l IH]; intros Hl; [reflexivity|]. cbn [lexable_any] in Hl.
+  apply andb_true_iff in Hl as [Hl Hrest]. apply andb_true_iff in Hl as [Hl Hdom]. apply andb_true_iff in Hl as [Hws Htok].
+  cbn [items_of lexable_i_any]. rewrite flat_i_ws, flat_items_of, Htok, Hdom, lexable_i_any_ws, Hws, (IH Hrest). reflexivity.
+Qed.
+
+Theorem lex_render_any : forall pre l,
+  forallb is_layout pre = true -> lexable_any l = true -> lex (render_any pre l) = Ok (List.map fst l).
+Proof.
+  intros pre l Hpre Hl. unfold render_any.
+  rewrite <- (flat_items_of l), <- flat_i_ws, <- (toks_items_of l), <- (toks_i_ws pre).
+  apply lex_items_any. rewrite lexable_i_any_ws, Hpre. apply lexable_items_of. exact Hl.
+Qed.
+
+Lemma lexable_any_of l : lexable l = true -> lexable_any l = true.
+Proof.
+  induction l as [|[t ws] l IH]; intros Hl; [reflexivity|]. cbn [lexable lexable_any] in *.
   apply andb_true_iff in Hl as [Hl Hrest]. apply andb_true_iff in Hl as [Hl Hdom].
-  apply andb_true_iff in Hl as [Hl Hnw]. apply andb_true_iff in Hl as [Hws Htok].
-  cbn [flat]. rewrite !forallb_app, Hdom, (IH Hrest).
+  apply andb_true_iff in Hl as [Hl _]. apply andb_true_iff in Hl as [Hws Htok].
+  rewrite Htok, Hdom, (IH Hrest), !andb_true_r.
   unfold ws_ok in Hws. apply orb_true_iff in Hws as [Hws|Hws]; [apply orb_true_iff in Hws as [Hws|Hws]|].
   - destruct ws; [reflexivity|discriminate].
   - apply bytes_eqb_true in Hws. subst ws. reflexivity.
   - apply bytes_eqb_true in Hws. subst ws. reflexivity.
 Qed.
 
-(* C14, lexer level: a lexable layout of a token list lexes back to the token list *)
-Theorem lex_render : forall l, lexable l = true -> lex (flat l) = Ok (List.map fst l).
+(* a gap that is not empty constrains the token before it only in one case: a Comment
+   token ("//[^\n]*" swallows everything up to the next \n) must be followed by \n.  A token
+   that is fine at the end of the text is fine before any layout byte. *)
+Lemma mismatch_app lit : forall x y, mismatch lit x = true -> mismatch lit (x ++ y) = true.
 Proof.
-  intros l Hl. unfold lex. rewrite (lexable_domain l Hl). apply lex_loop_flat; [exact Hl|apply le_n].
+  induction lit as [|a lit IH]; intros x y H; [destruct x; discriminate|].
+  destruct x as [|b x]; [discriminate|]. cbn [app mismatch] in *. destruct (N.eqb a b); [apply IH; exact H|reflexivity].
 Qed.
+Lemma layout_not c : is_layout c = true ->
+  is_hexdigit c = false /\ is_word c = false /\ is_digit c = false /\ (c =? 61) = false /\ (c =? 45) = false /\ (c =? 47) = false.
+Proof. intros H. destruct (is_layout_cases c H) as [->|[->|[->| ->]]]; repeat split; reflexivity. Qed.
+
+Theorem tok_ok_before_layout t c :
+  is_layout c = true -> tok_ok t None = true -> (tk t = KComment -> c = 10) -> tok_ok t (Some c) = true.
+Proof.
+  intros Hc H Hcm. destruct (layout_not c Hc) as (Hh & Hw & Hd & H61 & H45 & H47).
+  destruct t as [k x]. unfold tok_ok in *. cbn [tk tx] in *.
+  destruct k; try exact H.
+  - destruct (strip lit_hex x); [|discriminate]. cbn [nx_not] in *. rewrite Hh. exact H.
+  - cbn [nx_not] in *. rewrite H61, H45. exact H.
+  - rewrite (Hcm eq_refl). destruct x as [|a [|b body]]; try discriminate. rewrite N.eqb_refl. exact H.
+  - destruct x as [|d w]; [discriminate|]. cbn [nx_not] in *. rewrite Hw. exact H.
+  - cbn [nx_not] in *. rewrite Hd, H45. exact H.
+  - destruct x as [|a w]; [discriminate|]. cbn [nx_not nxl] in *. rewrite Hw.
+    apply andb_true_iff in H as [H Hsh]. apply andb_true_iff in H as [H _]. rewrite H. cbn [andb negb].
+    rewrite forallb_forall in *. intros lit Hin. specialize (Hsh lit Hin). rewrite app_nil_r in Hsh.
+    apply mismatch_app. exact Hsh.
+  - cbn [nx_not] in *. rewrite H47. exact H.
+Qed.
+
+(* C14, lexer level: a lexable layout of a token list lexes back to the token list
+   (nothing, one space or one newline between two tokens: a special case of [lex_render_any]) *)
+Theorem lex_render : forall l, lexable l = true -> lex (flat l) = Ok (List.map fst l).
+Proof. intros l Hl. exact (lex_render_any [] l eq_refl (lexable_any_of l Hl)). Qed.
+
+(* the same for items (single spaces and newlines, never two in a row: a special case of
+   [lex_items_any]) *)
+Theorem lex_items : forall l, lexable_i l = true -> lex (flat_i l) = Ok (toks_i l).
+Proof. intros l Hl. exact (lex_items_any l (lexable_i_any_of l Hl)). Qed.
+
 
 (* ================================================================== *)
 (* the fuel of [fuel_for] is enough: need <= 16 * tokens               *)
@@ -3027,65 +3320,125 @@ Proof. unfold fuel_for. lia. Qed.
 Lemma ck_query_nil : ck_query [].
 Proof. repeat split. Qed.
 
-(* every text obtained by laying out the tokens of a grammar tree (one space, one
-   newline or nothing between tokens, as far as [lexable] allows) parses to the
-   value the tree denotes *)
+(* every text obtained by laying out the tokens of a grammar tree with ARBITRARY layout
+   (any run of spaces, tabs, \n, \r before the first token, between two tokens and after
+   the last one; [lexable_any] requires a separator only where the tokens would glue)
+   parses to the value the tree denotes.  Comment tokens occur in [up_rule], [up_block]
+   and [up_authorizer] where the grammar has them (the leading @Comment* ); the gap that
+   follows a Comment token must start with \n *)
+Theorem C14_parse_unparse_fact_any_layout : forall p pre l ps,
+  wf_pred p = true -> List.map fst l = up_pred p [] ->
+  forallb is_layout pre = true -> lexable_any l = true ->
+  parse_fact (render_any pre l) ps =
+    (do q <- pred_to_biscuit ps p; if existsb is_var (p_terms q) then Err EParse else Ok q).
+Proof.
+  intros p pre l ps Hwf Hmap Hpre Hlex. unfold parse_fact. rewrite (lex_render_any pre l Hpre Hlex), Hmap. cbn [bind].
+  rewrite (run_ok parse_predicate (up_pred p []) p); [reflexivity|].
+  apply parse_unparse_predicate; [exact Hwf|]. pose proof (pred_need p). pose proof (fuel_for_gt (up_pred p [])). lia.
+Qed.
+
+Theorem C14_parse_unparse_rule_any_layout : forall r pre l ps,
+  wfb_rule r = true -> List.map fst l = up_rule r [] ->
+  forallb is_layout pre = true -> lexable_any l = true ->
+  parse_rule (render_any pre l) ps = rule_to_biscuit ps r.
+Proof.
+  intros r pre l ps Hwf Hmap Hpre Hlex. unfold parse_rule. rewrite (lex_render_any pre l Hpre Hlex), Hmap. cbn [bind].
+  rewrite (run_ok parse_rule_g (up_rule r []) r); [reflexivity|].
+  apply parse_unparse_rule; [|split; reflexivity].
+  apply fits_rule_wf; [exact Hwf|apply fuel_for_gt].
+Qed.
+
+Theorem C14_parse_unparse_check_any_layout : forall c pre l ps,
+  wfb_check c = true -> List.map fst l = up_check c [] ->
+  forallb is_layout pre = true -> lexable_any l = true ->
+  parse_check (render_any pre l) ps = check_to_biscuit ps c.
+Proof.
+  intros c pre l ps Hwf Hmap Hpre Hlex. unfold parse_check. rewrite (lex_render_any pre l Hpre Hlex), Hmap. cbn [bind].
+  rewrite (run_ok parse_check_g (up_check c []) c); [reflexivity|].
+  apply parse_unparse_check; [|exact ck_query_nil].
+  apply fits_check_wf; [exact Hwf|apply fuel_for_gt].
+Qed.
+
+Theorem C14_parse_unparse_policy_any_layout : forall p pre l ps,
+  wfb_policy p = true -> List.map fst l = up_policy p [] ->
+  forallb is_layout pre = true -> lexable_any l = true ->
+  parse_policy (render_any pre l) ps = policy_to_biscuit ps p.
+Proof.
+  intros p pre l ps Hwf Hmap Hpre Hlex. unfold parse_policy. rewrite (lex_render_any pre l Hpre Hlex), Hmap. cbn [bind].
+  rewrite (run_ok parse_policy_g (up_policy p []) p); [reflexivity|].
+  apply parse_unparse_policy; [|exact ck_query_nil].
+  apply fits_policy_wf; [exact Hwf|apply fuel_for_gt].
+Qed.
+
+Theorem C14_parse_unparse_block_any_layout : forall b pre l ps,
+  wfb_block b = true -> List.map fst l = up_block b ->
+  forallb is_layout pre = true -> lexable_any l = true ->
+  parse_block (render_any pre l) ps = block_to_biscuit ps b.
+Proof.
+  intros b pre l ps Hwf Hmap Hpre Hlex. unfold parse_block. rewrite (lex_render_any pre l Hpre Hlex), Hmap. cbn [bind].
+  rewrite (run_ok parse_block_g (up_block b) b); [reflexivity|].
+  apply parse_unparse_block. apply fits_block_wf. exact Hwf.
+Qed.
+
+Theorem C14_parse_unparse_authorizer_any_layout : forall a pre l ps,
+  wfb_authorizer a = true -> List.map fst l = up_authorizer a ->
+  forallb is_layout pre = true -> lexable_any l = true ->
+  parse_authorizer (render_any pre l) ps = authorizer_to_biscuit ps a.
+Proof.
+  intros a pre l ps Hwf Hmap Hpre Hlex. unfold parse_authorizer. rewrite (lex_render_any pre l Hpre Hlex), Hmap. cbn [bind].
+  rewrite (run_ok parse_authorizer_g (up_authorizer a) a); [reflexivity|].
+  apply parse_unparse_authorizer. apply fits_authorizer_wf. exact Hwf.
+Qed.
+
+(* the layouts with nothing, one space or one newline between the tokens: the special case
+   [pre = []], gaps in {[], [32], [10]} *)
 Theorem C14_parse_unparse_fact : forall p l ps,
   wf_pred p = true -> List.map fst l = up_pred p [] -> lexable l = true ->
   parse_fact (flat l) ps =
     (do q <- pred_to_biscuit ps p; if existsb is_var (p_terms q) then Err EParse else Ok q).
 Proof.
-  intros p l ps Hwf Hmap Hlex. unfold parse_fact. rewrite (lex_render l Hlex), Hmap. cbn [bind].
-  rewrite (run_ok parse_predicate (up_pred p []) p); [reflexivity|].
-  apply parse_unparse_predicate; [exact Hwf|]. pose proof (pred_need p). pose proof (fuel_for_gt (up_pred p [])). lia.
+  intros p l ps Hwf Hmap Hlex.
+  exact (C14_parse_unparse_fact_any_layout p [] l ps Hwf Hmap eq_refl (lexable_any_of l Hlex)).
 Qed.
 
 Theorem C14_parse_unparse_rule : forall r l ps,
   wfb_rule r = true -> List.map fst l = up_rule r [] -> lexable l = true ->
   parse_rule (flat l) ps = rule_to_biscuit ps r.
 Proof.
-  intros r l ps Hwf Hmap Hlex. unfold parse_rule. rewrite (lex_render l Hlex), Hmap. cbn [bind].
-  rewrite (run_ok parse_rule_g (up_rule r []) r); [reflexivity|].
-  apply parse_unparse_rule; [|split; reflexivity].
-  apply fits_rule_wf; [exact Hwf|apply fuel_for_gt].
+  intros r l ps Hwf Hmap Hlex.
+  exact (C14_parse_unparse_rule_any_layout r [] l ps Hwf Hmap eq_refl (lexable_any_of l Hlex)).
 Qed.
 
 Theorem C14_parse_unparse_check : forall c l ps,
   wfb_check c = true -> List.map fst l = up_check c [] -> lexable l = true ->
   parse_check (flat l) ps = check_to_biscuit ps c.
 Proof.
-  intros c l ps Hwf Hmap Hlex. unfold parse_check. rewrite (lex_render l Hlex), Hmap. cbn [bind].
-  rewrite (run_ok parse_check_g (up_check c []) c); [reflexivity|].
-  apply parse_unparse_check; [|exact ck_query_nil].
-  apply fits_check_wf; [exact Hwf|apply fuel_for_gt].
+  intros c l ps Hwf Hmap Hlex.
+  exact (C14_parse_unparse_check_any_layout c [] l ps Hwf Hmap eq_refl (lexable_any_of l Hlex)).
 Qed.
 
 Theorem C14_parse_unparse_policy : forall p l ps,
   wfb_policy p = true -> List.map fst l = up_policy p [] -> lexable l = true ->
   parse_policy (flat l) ps = policy_to_biscuit ps p.
 Proof.
-  intros p l ps Hwf Hmap Hlex. unfold parse_policy. rewrite (lex_render l Hlex), Hmap. cbn [bind].
-  rewrite (run_ok parse_policy_g (up_policy p []) p); [reflexivity|].
-  apply parse_unparse_policy; [|exact ck_query_nil].
-  apply fits_policy_wf; [exact Hwf|apply fuel_for_gt].
+  intros p l ps Hwf Hmap Hlex.
+  exact (C14_parse_unparse_policy_any_layout p [] l ps Hwf Hmap eq_refl (lexable_any_of l Hlex)).
 Qed.
 
 Theorem C14_parse_unparse_block : forall b l ps,
   wfb_block b = true -> List.map fst l = up_block b -> lexable l = true ->
   parse_block (flat l) ps = block_to_biscuit ps b.
 Proof.
-  intros b l ps Hwf Hmap Hlex. unfold parse_block. rewrite (lex_render l Hlex), Hmap. cbn [bind].
-  rewrite (run_ok parse_block_g (up_block b) b); [reflexivity|].
-  apply parse_unparse_block. apply fits_block_wf. exact Hwf.
+  intros b l ps Hwf Hmap Hlex.
+  exact (C14_parse_unparse_block_any_layout b [] l ps Hwf Hmap eq_refl (lexable_any_of l Hlex)).
 Qed.
 
 Theorem C14_parse_unparse_authorizer : forall a l ps,
   wfb_authorizer a = true -> List.map fst l = up_authorizer a -> lexable l = true ->
   parse_authorizer (flat l) ps = authorizer_to_biscuit ps a.
 Proof.
-  intros a l ps Hwf Hmap Hlex. unfold parse_authorizer. rewrite (lex_render l Hlex), Hmap. cbn [bind].
-  rewrite (run_ok parse_authorizer_g (up_authorizer a) a); [reflexivity|].
-  apply parse_unparse_authorizer. apply fits_authorizer_wf. exact Hwf.
+  intros a l ps Hwf Hmap Hlex.
+  exact (C14_parse_unparse_authorizer_any_layout a [] l ps Hwf Hmap eq_refl (lexable_any_of l Hlex)).
 Qed.
 
 (* the one-space layout *)
@@ -3156,6 +3509,120 @@ Example lt_minus_adjacency :
   lexable [(va, []); (t_add ASub, []); (t_minus, []); (one, [])] = true /\
   lex (bs "$a--1") = Ok [va; t_minus; t_minus; one].
 Proof. vm_compute. repeat split. Qed.
+
+(* ---- non-vacuity of the arbitrary-layout theorems ---- *)
+(* the inverse of [render_any], for writing examples from literal texts: the leading gap
+   and, for each token the lexer finds, the token and the layout bytes that follow it *)
+Fixpoint split_gaps (fuel : nat) (s : bytes) : bytes * list (token * bytes) :=
+  match fuel with
+  | O => ([], [])
+  | S f =>
+      match next_token s with
+      | None => ([], [])
+      | Some (t, r) =>
+          let '(g, l) := split_gaps f r in
+          if elided (tk t) then (tx t ++ g, l) else ([], (t, g) :: l)
+      end
+  end.
+Definition gaps_of (s : bytes) : bytes * list (token * bytes) := split_gaps (S (List.length s)) s.
+
+Definition check_tree_of (s : bytes) : option Check :=
+  match lex s with
+  | Ok ts => match run parse_check_g ts with Ok c => Some c | _ => None end
+  | _ => None
+  end.
+Definition block_tree_of (s : bytes) : option Block :=
+  match lex s with
+  | Ok ts => match run parse_block_g ts with Ok b => Some b | _ => None end
+  | _ => None
+  end.
+
+(* a check: tabs, \r\n line ends, runs of blanks, leading and trailing newlines, and no
+   separator where none is needed ("$t<2030-...") *)
+Definition ex_any_check_canon : bytes :=
+  bs "check if time($t), $t < 2030-01-01T00:00:00Z or admin(true)".
+Definition ex_any_check_text : bytes :=
+  [10; 13; 10; 9] ++ bs "check if" ++ [9; 9] ++ bs "time($t) ," ++ [13; 10] ++ bs "  $t<2030-01-01T00:00:00Z"
+  ++ [13; 10] ++ bs " or" ++ [9] ++ bs "admin( true )" ++ [10; 10].
+Example C14_any_layout_check_nonvacuous :
+  match check_tree_of ex_any_check_canon with
+  | Some c =>
+      let '(pre, l) := gaps_of ex_any_check_text in
+      wfb_check c = true /\ List.map fst l = up_check c [] /\
+      forallb is_layout pre = true /\ lexable_any l = true /\
+      render_any pre l = ex_any_check_text /\
+      pre = [10; 13; 10; 9] /\ List.length l = 14%nat /\
+      (* not one of the layouts of the old theorem *)
+      lexable l = false /\
+      lex ex_any_check_text = Ok (up_check c []) /\
+      is_ok (parse_check ex_any_check_text []) = true /\
+      parse_check ex_any_check_text [] = check_to_biscuit [] c
+  | None => False
+  end.
+Proof. vm_compute. repeat split. Qed.
+
+(* a block with two leading comments (the only place where the grammar has comments), a
+   fact, a rule with a method call and a check *)
+Definition ex_any_block_canon : bytes :=
+  bs "// first comment" ++ [10] ++ bs "//second" ++ [10]
+  ++ bs "right(""file1"", ""read""); valid($f) <- resource($f), $f.starts_with(""/tmp""); check if !false;".
+Definition ex_any_block_text : bytes :=
+  [13; 10] ++ bs "// first comment" ++ [10; 10] ++ bs "//second" ++ [10; 9] ++ bs "right(""file1"" ," ++ [9]
+  ++ bs """read"")" ++ [13; 10] ++ bs ";" ++ [13; 10; 13; 10] ++ bs "valid($f)<-resource($f)" ++ [9] ++ bs "," ++ [9]
+  ++ bs "$f. starts_with( ""/tmp"" ) ;   check if" ++ [13; 10] ++ bs "!false" ++ [10] ++ bs ";" ++ [10].
+Example C14_any_layout_block_nonvacuous :
+  match block_tree_of ex_any_block_canon with
+  | Some b =>
+      let '(pre, l) := gaps_of ex_any_block_text in
+      wfb_block b = true /\ bl_comments b = [bs "// first comment"; bs "//second"] /\
+      List.length (bl_body b) = 3%nat /\
+      List.map fst l = up_block b /\
+      forallb is_layout pre = true /\ lexable_any l = true /\
+      render_any pre l = ex_any_block_text /\
+      pre = [13; 10] /\ List.length l = 30%nat /\
+      lexable l = false /\
+      lex ex_any_block_text = Ok (up_block b) /\
+      is_ok (parse_block ex_any_block_text []) = true /\
+      parse_block ex_any_block_text [] = block_to_biscuit [] b
+  | None => False
+  end.
+Proof. vm_compute. repeat split. Qed.
+
+(* comments: the grammar has them only in front of a rule, a block and an authorizer
+   (struct tags "@Comment*" of Rule.Comments, Block.Comments, Authorizer.Comments).  A
+   Comment token is not elided, so a comment in any other gap makes the parse fail, in the
+   model as in the library ("unexpected token "// c"").  After a Comment token the gap has
+   to start with \n: "//[^\n]*" takes every other byte, \r included, into the token. *)
+Example C14_comments_only_leading :
+  (* leading: fine, with any layout around them *)
+  is_ok (parse_rule ([9] ++ bs "// c" ++ [10; 13; 10] ++ bs " a($x) <- b($x)") []) = true /\
+  is_ok (parse_block (bs "// c" ++ [10] ++ bs "a(1);") []) = true /\
+  is_ok (parse_authorizer ([13; 10] ++ bs "// c" ++ [10] ++ bs "allow if true;") []) = true /\
+  (* between two elements, inside an element, after the last one, before a check: rejected *)
+  parse_block (bs "a(1); // c" ++ [10] ++ bs "b(2);") [] = Err EParse /\
+  parse_block (bs "a(1);" ++ [10] ++ bs "// c" ++ [10]) [] = Err EParse /\
+  parse_block (bs "a( // c" ++ [10] ++ bs "1);") [] = Err EParse /\
+  parse_rule (bs "a($x) <- // c" ++ [10] ++ bs " b($x)") [] = Err EParse /\
+  parse_rule (bs "a($x) <- b($x) // c") [] = Err EParse /\
+  parse_check (bs "// c" ++ [10] ++ bs "check if true") [] = Err EParse /\
+  parse_check (bs "check if true // c") [] = Err EParse /\
+  (* a gap after a comment that starts with another layout byte is part of the comment *)
+  lexable_any [(Tok KComment (bs "// c"), [13; 10]); (Tok KIdent (bs "b"), [])] = false /\
+  lex (bs "// c" ++ [13; 10] ++ bs "b") = Ok [Tok KComment (bs "// c" ++ [13]); Tok KIdent (bs "b")] /\
+  lexable_any [(Tok KComment (bs "// c" ++ [13]), [10]); (Tok KIdent (bs "b"), [])] = true /\
+  lexable_any [(Tok KComment (bs "// c"), [10; 13; 9]); (Tok KIdent (bs "b"), [])] = true.
+Proof. vm_compute. repeat split. Qed.
+
+(* where a separator is needed any non-empty layout will do *)
+Example lt_minus_adjacency_any_layout :
+  let va := Tok KVariable (bs "$a") in
+  let one := Tok KInt (bs "1") in
+  lexable_any [(va, [9; 9]); (t_cmp CLt, []); (t_minus, []); (one, [13])] = false /\
+  lexable_any [(va, []); (t_cmp CLt, [9]); (t_minus, [13; 10]); (one, [10; 10])] = true /\
+  lex (render_any [13] [(va, []); (t_cmp CLt, [9]); (t_minus, [13; 10]); (one, [10; 10])])
+    = Ok [va; t_cmp CLt; t_minus; one].
+Proof. vm_compute. repeat split. Qed.
+
 
 Section Dates.
 Local Open Scope Z_scope.
@@ -3333,64 +3800,6 @@ End Dates.
 (* ================================================================== *)
 (* 5. C15: the printed form parses back                                 *)
 (* ================================================================== *)
-(* concrete syntax as a list of items: tokens and single whitespace bytes *)
-Inductive item := IT (t : token) | IW (c : N).
-
-Fixpoint flat_i (l : list item) : bytes :=
-  match l with
-  | [] => []
-  | IT t :: l' => src t ++ flat_i l'
-  | IW c :: l' => c :: flat_i l'
-  end.
-Fixpoint toks_i (l : list item) : list token :=
-  match l with
-  | [] => []
-  | IT t :: l' => t :: toks_i l'
-  | IW _ :: l' => toks_i l'
-  end.
-Fixpoint lexable_i (l : list item) : bool :=
-  match l with
-  | [] => true
-  | IT t :: l' => tok_ok t (follow (flat_i l')) && forallb in_domain (src t) && lexable_i l'
-  | IW c :: l' => ((c =? 32) || (c =? 10)) && hd_nonws (flat_i l') && lexable_i l'
-  end.
-
-Lemma lex_loop_items : forall l fuel,
-  lexable_i l = true -> (List.length (flat_i l) <= fuel)%nat -> lex_loop fuel (flat_i l) = Ok (toks_i l).
-Proof.
-  induction l as [|[t|c] l IH]; intros fuel Hl Hf.
-  - destruct fuel; reflexivity.
-  - cbn [lexable_i] in Hl. apply andb_true_iff in Hl as [Hl Hrest]. apply andb_true_iff in Hl as [Htok Hdom].
-    cbn [flat_i toks_i] in *.
-    pose proof (next_token_ok t (flat_i l) Htok) as Hnt.
-    pose proof (tok_ok_src_nonempty t _ Htok) as Hne.
-    rewrite app_length in Hf.
-    destruct (src t ++ flat_i l) as [|c s] eqn:E.
-    { destruct (src t); [congruence|discriminate]. }
-    destruct fuel as [|f]; [destruct (src t); [congruence|cbn in Hf; lia]|].
-    cbn [lex_loop]. rewrite Hnt, (tok_ok_not_elided t _ Htok), (tok_ok_no_backslash t _ Htok).
-    rewrite IH; [reflexivity|exact Hrest|]. destruct (src t); [congruence|]. cbn [List.length] in Hf. lia.
-  - cbn [lexable_i] in Hl. apply andb_true_iff in Hl as [Hl Hrest]. apply andb_true_iff in Hl as [Hc Hnw].
-    cbn [flat_i toks_i List.length] in *. destruct fuel as [|f]; [lia|].
-    apply orb_true_iff in Hc as [Hc|Hc]; apply N.eqb_eq in Hc; subst c; cbn [lex_loop].
-    + rewrite (nt_space _ Hnw). cbn [elided tk]. apply IH; [exact Hrest|lia].
-    + rewrite (nt_newline _ Hnw). cbn [elided tk]. apply IH; [exact Hrest|lia].
-Qed.
-
-Lemma lexable_i_domain l : lexable_i l = true -> forallb in_domain (flat_i l) = true.
-Proof.
-  induction l as [|[t|c] l IH]; intros Hl; [reflexivity| |]; cbn [lexable_i] in Hl.
-  - apply andb_true_iff in Hl as [Hl Hrest]. apply andb_true_iff in Hl as [Htok Hdom].
-    cbn [flat_i]. rewrite forallb_app, Hdom, (IH Hrest). reflexivity.
-  - apply andb_true_iff in Hl as [Hl Hrest]. apply andb_true_iff in Hl as [Hc Hnw].
-    cbn [flat_i forallb]. rewrite (IH Hrest).
-    apply orb_true_iff in Hc as [Hc|Hc]; apply N.eqb_eq in Hc; subst c; reflexivity.
-Qed.
-
-Theorem lex_items : forall l, lexable_i l = true -> lex (flat_i l) = Ok (toks_i l).
-Proof.
-  intros l Hl. unfold lex. rewrite (lexable_i_domain l Hl). apply lex_loop_items; [exact Hl|apply le_n].
-Qed.
 
 Lemma flat_i_app a b : flat_i (a ++ b) = flat_i a ++ flat_i b.
 Proof. induction a as [|[t|c] a IH]; cbn [app flat_i]; [reflexivity| |]; rewrite IH; [apply app_assoc|reflexivity]. Qed.
@@ -4305,15 +4714,31 @@ Proof.
   repeat rewrite <- app_assoc. reflexivity.
 Qed.
 
-(* parsing a text given as items *)
+(* parsing a text given as items, with arbitrary layout *)
 Lemma parse_block_items B l ps :
-  wfb_block B = true -> toks_i l = up_block B -> lexable_i l = true ->
+  wfb_block B = true -> toks_i l = up_block B -> lexable_i_any l = true ->
   parse_block (flat_i l) ps = block_to_biscuit ps B.
 Proof.
-  intros Hwf Hmap Hlex. unfold parse_block. rewrite (lex_items l Hlex), Hmap. cbn [bind].
+  intros Hwf Hmap Hlex. unfold parse_block. rewrite (lex_items_any l Hlex), Hmap. cbn [bind].
   rewrite (run_ok parse_block_g (up_block B) B); [reflexivity|].
   apply parse_unparse_block. apply fits_block_wf. exact Hwf.
 Qed.
+
+(* the text the printers emit for a block of the printable domain is the layout [lay_block] *)
+Lemma printed_block_text B b :
+  sorted3 (bl_body B) = true -> forallb pr_be (bl_body B) = true -> block_to_biscuit [] B = Ok b ->
+  reassemble (print_block sidx b) = flat_i (lay_block B).
+Proof.
+  intros Hsorted Hpr Hb.
+  destruct (block_print (bl_body B) empty_block Hsorted Hpr) as (fs & rs & cs & Hconv & Hstr & _ & _).
+  unfold block_to_biscuit in Hb. rewrite Hconv in Hb. cbn [empty_block b_facts b_rules b_checks app] in Hb.
+  injection Hb as <-.
+  unfold reassemble, print_block, lay_block. cbn [pr_facts pr_rules pr_checks b_facts b_rules b_checks].
+  rewrite Hstr, flat_lay_semi. reflexivity.
+Qed.
+
+Lemma toks_lay_block B : bl_comments B = [] -> toks_i (lay_block B) = up_block B.
+Proof. intros Hcs. unfold lay_block, up_block. rewrite Hcs. cbn [up_comments]. symmetry. apply up_lay_semi. Qed.
 
 (* C15: the text printed for a block parses back to the block.
    [B] is the block's content as a grammar tree in the printers' order (facts, rules,
@@ -4327,17 +4752,25 @@ Theorem C15_roundtrip : forall B b,
   parse_block (reassemble (print_block sidx b)) [] = Ok b.
 Proof.
   intros B b Hcs Hsorted Hpr Hwf Hlex Hb.
-  destruct (block_print (bl_body B) empty_block Hsorted Hpr) as (fs & rs & cs & Hconv & Hstr & _ & _).
-  unfold block_to_biscuit in Hb. rewrite Hconv in Hb. cbn [empty_block b_facts b_rules b_checks app] in Hb.
-  injection Hb as <-.
-  assert (Htext : reassemble (print_block sidx {| b_facts := fs; b_rules := rs; b_checks := cs |})
-                  = flat_i (lay_block B)).
-  { unfold reassemble, print_block, lay_block. cbn [pr_facts pr_rules pr_checks b_facts b_rules b_checks].
-    rewrite Hstr, flat_lay_semi. reflexivity. }
-  rewrite Htext. rewrite (parse_block_items B (lay_block B) [] Hwf).
-  - unfold block_to_biscuit. rewrite Hconv. reflexivity.
-  - unfold lay_block, up_block. rewrite Hcs. cbn [up_comments]. symmetry. apply up_lay_semi.
-  - exact Hlex.
+  rewrite (printed_block_text B b Hsorted Hpr Hb).
+  rewrite (parse_block_items B (lay_block B) [] Hwf (toks_lay_block B Hcs) (lexable_i_any_of _ Hlex)).
+  exact Hb.
+Qed.
+
+(* ... and so does every other layout of the printed tokens: any text [flat_i l] (arbitrary
+   runs of spaces, tabs, \n, \r anywhere between the tokens, [lexable_i_any]) whose tokens
+   are those of the printed text *)
+Theorem C15_roundtrip_relayout : forall B b l,
+  bl_comments B = [] -> sorted3 (bl_body B) = true -> forallb pr_be (bl_body B) = true ->
+  wfb_block B = true -> lexable_i (lay_block B) = true ->
+  block_to_biscuit [] B = Ok b ->
+  lexable_i_any l = true -> lex (reassemble (print_block sidx b)) = Ok (toks_i l) ->
+  parse_block (flat_i l) [] = Ok b.
+Proof.
+  intros B b l Hcs Hsorted Hpr Hwf Hlex Hb Hany Htoks.
+  rewrite (printed_block_text B b Hsorted Hpr Hb), (lex_items _ Hlex), (toks_lay_block B Hcs) in Htoks.
+  injection Htoks as Htoks.
+  rewrite (parse_block_items B l [] Hwf (eq_sym Htoks) Hany). exact Hb.
 Qed.
 End PrintProofs.
 
@@ -4408,13 +4841,6 @@ Proof. vm_compute. reflexivity. Qed.
 (* ================================================================== *)
 (* lexability of the printers' layouts from per-token conditions        *)
 (* ================================================================== *)
-Definition first_byte (x : item) : option N :=
-  match x with
-  | IW c => Some c
-  | IT t => match src t with c :: _ => Some c | [] => None end
-  end.
-Definition nonws_nx (nx : option N) : bool :=
-  match nx with None => true | Some d => negb (is_blank d || is_eol d) end.
 Definition item_ok (x : item) (nx : option N) : bool :=
   match x with
   | IT t => tok_ok t nx && forallb in_domain (src t)
@@ -4472,51 +4898,6 @@ Proof.
   discriminate.
 Qed.
 
-(* a lexable token starts with a non-blank byte *)
-Lemma tok_ok_first t nx : tok_ok t nx = true -> nonws_nx (first_byte (IT t)) = true.
-Proof.
-  destruct t as [k x]. unfold tok_ok, first_byte, src. cbn [tk tx].
-  destruct k; cbn [kind_eqb kind_code N.eqb Pos.eqb]; cbv iota; intros H; try discriminate.
-  - apply mem_cases in H. cbn in H. destruct H as [<-|[<-|[<-|[]]]]; reflexivity.
-  - apply mem_cases in H. cbn in H. destruct H as [<-|[<-|[<-|[<-|[<-|[]]]]]]; reflexivity.
-  - destruct (strip lit_hex x) as [h|] eqn:E; [|discriminate]. apply strip_inv in E. subst x. reflexivity.
-  - apply bytes_eqb_true in H. subst x. reflexivity.
-  - apply bytes_eqb_true in H. subst x. reflexivity.
-  - apply bytes_eqb_true in H. subst x. reflexivity.
-  - apply bytes_eqb_true in H. subst x. reflexivity.
-  - apply orb_true_iff in H as [H|H]; [apply orb_true_iff in H as [H|H]|].
-    + apply mem_cases in H. cbn in H. destruct H as [<-|[<-|[<-|[<-|[<-|[<-|[]]]]]]]; reflexivity.
-    + apply andb_true_iff in H as [H _]. apply bytes_eqb_true in H. subst x. reflexivity.
-    + apply andb_true_iff in H as [H _]. apply bytes_eqb_true in H. subst x. reflexivity.
-  - destruct x as [|a [|b body]]; try discriminate.
-    repeat match goal with Hx : (_ && _) = true |- _ => apply andb_true_iff in Hx; destruct Hx end.
-    match goal with Ha : (a =? 47) = true |- _ => apply N.eqb_eq in Ha; subst a end. reflexivity.
-  - reflexivity.
-  - destruct x as [|d w]; [discriminate|].
-    repeat match goal with Hx : (_ && _) = true |- _ => apply andb_true_iff in Hx; destruct Hx end.
-    match goal with Ha : (d =? 36) = true |- _ => apply N.eqb_eq in Ha; subst d end. reflexivity.
-  - destruct x as [|o w]; [discriminate|]. apply andb_true_iff in H as [Ho _].
-    apply N.eqb_eq in Ho. subst o. reflexivity.
-  - do 20 (destruct x as [|? x]; [discriminate|]). cbn [dt_shape] in H. destruct x; [|discriminate].
-    repeat match goal with Hx : (_ && _) = true |- _ => apply andb_true_iff in Hx; destruct Hx end.
-    match goal with Hd : is_digit ?c = true |- nonws_nx (Some ?c) = true =>
-      apply is_digit_iff in Hd; cbn [nonws_nx]; apply negb_true_iff, orb_false_iff; split;
-      [apply is_blank_false|apply is_eol_false]; lia end.
-  - destruct x as [|c w]; [discriminate|].
-    repeat match goal with Hx : (_ && _) = true |- _ => apply andb_true_iff in Hx; destruct Hx end.
-    match goal with Hx : forallb is_digit (c :: w) = true |- _ =>
-      cbn [forallb] in Hx; apply andb_true_iff in Hx; destruct Hx as [Hd _] end.
-    apply is_digit_iff in Hd. cbn [nonws_nx]. apply negb_true_iff, orb_false_iff; split;
-      [apply is_blank_false|apply is_eol_false]; lia.
-  - apply mem_cases in H. cbn in H. destruct H as [<-|[<-|[]]]; reflexivity.
-  - destruct x as [|c w]; [discriminate|].
-    repeat match goal with Hx : (_ && _) = true |- _ => apply andb_true_iff in Hx; destruct Hx end.
-    match goal with Hl : is_lower c = true |- _ => apply is_lower_iff in Hl end.
-    cbn [nonws_nx]. apply negb_true_iff, orb_false_iff; split; [apply is_blank_false|apply is_eol_false]; lia.
-  - apply orb_true_iff in H as [H|H].
-    + apply mem_cases in H. cbn in H. destruct H as [<-|[<-|[<-|[<-|[<-|[<-|[<-|[]]]]]]]]; reflexivity.
-    + apply andb_true_iff in H as [H _]. apply bytes_eqb_true in H. subst x. reflexivity.
-Qed.
 
 Definition head_nonws (l : list item) : bool :=
   match l with x :: _ => nonws_nx (first_byte x) && negb (is_nil l) | [] => false end.
@@ -4856,6 +5237,19 @@ Proof.
   - apply lay_block_lexable. assumption.
 Qed.
 
+(* the printed text under any other layout of its tokens *)
+Theorem C15_roundtrip_any_layout : forall sidx B b l,
+  printable_block B = true -> block_to_biscuit [] B = Ok b ->
+  lexable_i_any l = true -> lex (reassemble (print_block sidx b)) = Ok (toks_i l) ->
+  parse_block (flat_i l) [] = Ok b.
+Proof.
+  intros sidx B b l H Hb Hany Htoks. unfold printable_block in H.
+  repeat match goal with Hx : (_ && _) = true |- _ => apply andb_true_iff in Hx; destruct Hx end.
+  apply (C15_roundtrip_relayout sidx B b l); try assumption.
+  - destruct (bl_comments B); [reflexivity|discriminate].
+  - apply lay_block_lexable. assumption.
+Qed.
+
 Example C15_roundtrip_structural_nonvacuous :
   printable_block ex_block = true /\ is_ok (block_to_biscuit [] ex_block) = true.
 Proof. vm_compute. split; reflexivity. Qed.
@@ -4876,6 +5270,27 @@ Example C15_roundtrip_negative_nonvacuous :
             reassemble (print_block (fun _ => 1024) b) = flat_i (lay_block ex_neg_block).
 Proof.
   split; [vm_compute; reflexivity|]. split; [vm_compute; reflexivity|]. split; [vm_compute; reflexivity|].
+  eexists. split; [vm_compute; reflexivity|]. split; vm_compute; reflexivity.
+Qed.
+
+(* non-vacuity of [C15_roundtrip_any_layout]: the printed text of [ex_block] with every space
+   replaced by tab, \r, \n, space, two newlines after every ";" and a leading \r *)
+Definition wild_items (l : list item) : list item :=
+  IW 13 :: List.concat (List.map (fun x =>
+    match x with
+    | IW _ => [IW 9; IW 13; IW 10; IW 32]
+    | IT t => if token_eqb t t_semi then [IT t; IW 10; IW 10] else [IT t]
+    end) l).
+Example C15_roundtrip_any_layout_nonvacuous :
+  let l := wild_items (lay_block ex_block) in
+  printable_block ex_block = true /\ lexable_i_any l = true /\ lexable_i l = false /\
+  (List.length (flat_i (lay_block ex_block)) < List.length (flat_i l))%nat /\
+  exists b, block_to_biscuit [] ex_block = Ok b /\
+            lex (reassemble (print_block (fun _ => 1024) b)) = Ok (toks_i l) /\
+            parse_block (flat_i l) [] = Ok b.
+Proof.
+  split; [vm_compute; reflexivity|]. split; [vm_compute; reflexivity|]. split; [vm_compute; reflexivity|].
+  split; [vm_compute; lia|].
   eexists. split; [vm_compute; reflexivity|]. split; vm_compute; reflexivity.
 Qed.
 
@@ -5226,6 +5641,20 @@ Print Assumptions parse_unparse_block.
 Print Assumptions parse_unparse_authorizer.
 Print Assumptions lex_render.
 Print Assumptions lex_items.
+Print Assumptions lex_items_any.
+Print Assumptions lex_render_any.
+Print Assumptions tok_ok_before_layout.
+Print Assumptions C14_parse_unparse_fact_any_layout.
+Print Assumptions C14_parse_unparse_rule_any_layout.
+Print Assumptions C14_parse_unparse_check_any_layout.
+Print Assumptions C14_parse_unparse_policy_any_layout.
+Print Assumptions C14_parse_unparse_block_any_layout.
+Print Assumptions C14_parse_unparse_authorizer_any_layout.
+Print Assumptions C14_any_layout_check_nonvacuous.
+Print Assumptions C14_any_layout_block_nonvacuous.
+Print Assumptions C14_comments_only_leading.
+Print Assumptions C15_roundtrip_any_layout.
+Print Assumptions C15_roundtrip_any_layout_nonvacuous.
 Print Assumptions C14_parse_unparse_fact.
 Print Assumptions C14_parse_unparse_rule.
 Print Assumptions C14_parse_unparse_check.
